@@ -76,11 +76,19 @@ fn text_for(seed: u64, k: usize, len: usize) -> String {
 
 /// Spell every 5th letter of the text as a JSON escape (the decoded text then contains `/`, `é`, a line
 /// feed or a quote there).
-fn escaped(text: &str) -> String {
+fn escaped(text: &str, style: u64) -> String {
+    // style 0: every kind of escape; 1: only `\/`; 2: only `\uXXXX` of printable characters (these two kinds
+    // stand for characters that could have been written as they are); 3: only escapes that are required
+    let pool: &[&str] = match style % 4 {
+        0 => &["\\/", "\\u00e9", "\\n", "\\\"", "\\ud83d\\ude00"],
+        1 => &["\\/"],
+        2 => &["\\u00e9", "\\ud83d\\ude00", "\\u0041"],
+        _ => &["\\n", "\\\"", "\\\\", "\\u0007"],
+    };
     let mut out = String::with_capacity(text.len() * 2);
     for (i, c) in text.chars().enumerate() {
         if i > 6 && i % 5 == 0 {
-            out.push_str(["\\/", "\\u00e9", "\\n", "\\\"", "\\ud83d\\ude00"][(i / 5) % 5]);
+            out.push_str(pool[(i / 5) % pool.len()]);
         } else {
             out.push(c);
         }
@@ -92,7 +100,7 @@ fn reply_bytes(case: &Case, k: usize) -> Vec<u8> {
     let (kind, len, cont) = case.replies[k];
     let mut text = text_for(case.seed, k, len);
     if case.esc && kind == 0 {
-        text = escaped(&text);
+        text = escaped(&text, case.seed >> 2);
     }
     let mut v = if kind == 1 {
         format!("{{\"error\":\"c.Fail\",\"parameters\":{{\"tag\":{k},\"why\":\"{text}\"}}}}")
@@ -345,10 +353,12 @@ pub fn run(cfg: &Cfg) -> Report {
             }
             v
         };
-        let total: usize = replies.iter().map(|r| r.1 + 70).sum();
+        let esc = i % 4 == 1;
+        // escapes make the encoded text up to 3.4 times as long as the decoded one
+        let total: usize = replies.iter().map(|r| r.1 * if esc { 4 } else { 1 } + 70).sum();
         // same-read group: make sure the buffer can take the whole burst in one read
         let warmup = if group == "same" { total + 600 } else if group == "available" { 0 } else if rng.chance(1, 3) { rng.range(1, 3000) } else { 0 };
-        let mut case = Case { replies, chunk_of, pendings: if group == "available" { 0 } else { rng.below(2) }, via_proxy_stream, seed: cfg.seed ^ i, warmup, esc: i % 4 == 1 };
+        let mut case = Case { replies, chunk_of, pendings: if group == "available" { 0 } else { rng.below(2) }, via_proxy_stream, seed: cfg.seed ^ i, warmup, esc };
         if group == "available" {
             // The whole burst is in the transport before the first item is requested, but the receive buffer
             // is fresh, so zlink takes it in buffer-sized pieces. zlink keeps reading until a piece ends on a
